@@ -103,3 +103,12 @@ Definition check_api (c : api_case) : bool :=
   | None => false
   | Some (st, lt) => nat_list_eqb (sort_dedup (active_features ly st lt requested)) obs
   end.
+
+(* model-level search used by the driver when a proof of Props/C18.v no longer checks:
+   1 = the model panics, 0 = no language tag, otherwise the first language tag *)
+Definition model_first (l : bytes) : N :=
+  match tags None (Some l) with
+  | None => 1
+  | Some (_, []) => 0
+  | Some (_, t :: _) => t
+  end.
